@@ -362,6 +362,24 @@ static void l_work(void *arg)
 }
 
 static volatile int L_exit_calls;
+static volatile int L_release, L_stubborn_done, L_early_join_returned;
+static void l_stubborn(void *arg)
+{
+    (void)arg;
+    /* work that does not end by itself: only a stream that is told to terminate "even if work
+     * remains" gets rid of it */
+    while (!L_release) {
+        ABT_OK(ABT_thread_yield());
+        sim_progress();
+    }
+    L_stubborn_done++;
+}
+static void l_early_joiner(void *arg)
+{
+    ABT_OK(ABT_xstream_join(*(ABT_xstream *)arg));
+    L_early_join_returned = 1;
+    sim_progress();
+}
 static volatile int L_exit_joined;
 static void l_exit_joiner(void *arg)
 {
@@ -420,16 +438,37 @@ static void run_c17_life(void)
             /* the stream is told to terminate although work is queued: it terminates (join
              * returns), what it did not run stays in the pool, and a revived stream runs it */
             static const char *hn[] = { "cancel", "exit", "sched_exit" };
-            ABT_thread th[8], ex = ABT_THREAD_NULL, exj = ABT_THREAD_NULL;
-            sim_note("%s ", hn[how - 3]);
+            ABT_thread th[8], ex = ABT_THREAD_NULL, exj = ABT_THREAD_NULL, stub = ABT_THREAD_NULL;
+            /* (ABT_sched_exit makes the scheduler function return, but a main scheduler's function is
+             * entered again until the stream is cancelled or joined with empty pools: no unfinished
+             * work with it) */
+            int stubborn = how != 5 && plan_bool(), early = plan_n(3) == 0, ejtid = -1;
+            sim_note("%s%s%s ", hn[how - 3], stubborn ? "+stubborn" : "", early && (stubborn || how == 4) ? "+early-join" : "");
+            L_release = 0;
+            L_stubborn_done = 0;
+            L_early_join_returned = 0;
+            if (stubborn)
+                ABT_OK(ABT_thread_create(pool, l_stubborn, NULL, ABT_THREAD_ATTR_NULL, &stub));
             for (int i = 0; i < k; i++) {
                 L_done[i] = 0;
                 ABT_OK(ABT_thread_create(pool, l_work, (void *)(long)i, ABT_THREAD_ATTR_NULL, &th[i]));
             }
+            if (how == 4)
+                ABT_OK(ABT_thread_create(pool, l_exit, (void *)(long)plan_n(4), ABT_THREAD_ATTR_NULL, &ex));
+            /* (a join alone ends the stream once its pools are empty, and a request to a stream
+             * that is no longer running is undefined: an early joiner only where the stream cannot
+             * end before the request -- unfinished work, or the request comes from its own ULT) */
+            early = early && (stubborn || how == 4);
+            if (early) {
+                /* the join is (probably) registered before the request to terminate arrives */
+                ejtid = sim_thread_create(l_early_joiner, &xs);
+                for (int i = (int)plan_n(6); i > 0; i--)
+                    ABT_OK(ABT_thread_yield());
+                sim_count("c17.joins_registered_before_the_request", 1);
+            }
             if (how == 3)
                 ABT_OK(ABT_xstream_cancel(xs));
             else if (how == 4) {
-                ABT_OK(ABT_thread_create(pool, l_exit, (void *)(long)plan_n(4), ABT_THREAD_ATTR_NULL, &ex));
                 if (plan_bool()) {
                     /* somebody joins the ULT that ends its stream: released like any joiner */
                     ABT_xstream self;
@@ -444,7 +483,14 @@ static void run_c17_life(void)
                 ABT_OK(ABT_xstream_get_main_sched(xs, &ms));
                 ABT_OK(ABT_sched_exit(ms));
             }
-            ABT_OK(ABT_xstream_join(xs));
+            if (early) {
+                while (!L_early_join_returned)
+                    ABT_OK(ABT_thread_yield());
+                sim_thread_join(ejtid);
+            } else
+                ABT_OK(ABT_xstream_join(xs));
+            if (stubborn)
+                SIM_CHECK(L_stubborn_done == 0, "stream:work-after-lifecycle-step", "the unit that waits for a flag set after the join finished before the join returned");
             ABT_xstream_state st2;
             ABT_OK(ABT_xstream_get_state(xs, &st2));
             SIM_CHECK(st2 == ABT_XSTREAM_STATE_TERMINATED, "stream:not-terminated", "state %d after %s + join (cycle %d)", (int)st2, hn[how - 3], c);
@@ -465,6 +511,12 @@ static void run_c17_life(void)
             sim_count("c17.units_left_by_terminated_stream", (uint64_t)left);
             sim_progress();
             ABT_OK(ABT_xstream_revive(xs));
+            L_release = 1;
+            if (stubborn) {
+                ABT_OK(ABT_thread_free(&stub));
+                SIM_CHECK(L_stubborn_done == 1, "stream:work-after-lifecycle-step", "the unit left behind by the terminated stream ran to its end %d times on the revived stream", L_stubborn_done);
+                sim_count("c17.streams_terminated_with_unfinished_work", 1);
+            }
             for (int i = 0; i < k; i++) {
                 ABT_OK(ABT_thread_free(&th[i]));
                 SIM_CHECK(L_done[i] == 1, "stream:work-after-lifecycle-step", "unit %d did not run exactly once across a %s and a revive (ran %d times)", i, hn[how - 3], L_done[i]);
